@@ -62,6 +62,12 @@ REACH = [
 REACH_REQUIRED = REACH
 MONITORS_REQUIRED = ["purity_evaluations"]
 MANIFEST = {
+    "text": "Purity: deep content fingerprints of the model / CPDs / factors / data handed to ~95 public entry points "
+            "(inference, scoring, estimation, search, export, conversion, factor and CPD methods with inplace=False) "
+            "are compared before and after every call while the generated workloads of 15 other properties run. "
+            "History: every answer of shared VariableElimination / BeliefPropagation / CausalInference / sampling engines "
+            "over random question sequences equals a fresh engine's. Representation: answers, fits and scores are "
+            "unchanged under renaming, relabelling, re-ordering, and across hash-seed / torch cells. Exploration only.",
     "technique": "runtime monitoring: purity fingerprints around every entry point, shared-vs-fresh engine history "
                  "checker, renaming metamorphic monitor, cross-process (hash seed / backend) answer comparison",
 }
